@@ -9,8 +9,9 @@
   homogenised unit-weight problem, the reported triple is a least-squares solution of the original
   weighted problem `(A, b, C⁻¹)`.  Sparse solver (envelope): pure delegation.
 
-  `Cadj p` is the covariance matrix as `Adj` reads it from the `BlockDiagonal` storage (block
-  diagonal; each block the symmetric band matrix of its packed upper band rows).
+  `p.C` is the dense covariance matrix of the specification (`Problem.covDense`, Bridge); it is
+  proved equal to the matrix `Cadj p` that `Adj` reads from the `BlockDiagonal` storage (block
+  diagonal; each block the symmetric band matrix of its packed upper band rows): `C01_adj_cov`.
   Hypotheses: block dimensions add up to `m` (`AdjInputData` consistency), sparse rows have distinct
   column indices in `1..n`, the square root is exact on the pivots of the band `L D Lᵀ`
   (`SqrtExactP`, implied by `LawfulSqrt`).  Positive definiteness is NOT assumed: a block the code
@@ -18,7 +19,9 @@
   Proofs: `Gama/Lemmas/Ls/Adj*.lean`, LS4 from `Gama/Lemmas/LS/Transform.lean`.
 -/
 import Gama.Lemmas.Ls.AdjFacade
+import Gama.Lemmas.Ls.AdjCov
 import Gama.Lemmas.Ls.AdjExample
+import Gama.Lemmas.Ls.CholSingular
 namespace Gama.Props.C01
 open Gama Gama.Ls Gama.LS Gama.Ls.AdjM Matrix
 
@@ -30,7 +33,7 @@ attribute [local instance 2000] scalarOfField
 /-- full-solver branch of `Adj::init_least_squares` -/
 theorem C01_adj_facade (alg : Alg) (halg : alg ≠ .env) (p : Problem K) (hsq : SqrtExactP p)
     (hdim : (dimsOf p).sum = p.m) (hrows : RowsOK p)
-    (P : Matrix (Fin p.m) (Fin p.m) K) (hP : Cadj p * P = 1)
+    (P : Matrix (Fin p.m) (Fin p.m) K) (hP : p.C * P = 1)
     (hsol : ∀ Ad bd s, homogenise p = .ok (Ad, bd) →
       solverOf alg (dotProblem p Ad bd (regOf p.reg)) = .ok s →
       IsLSSolution (dotProblem p Ad bd (regOf p.reg)).A (dotProblem p Ad bd (regOf p.reg)).b 1
@@ -43,7 +46,10 @@ theorem C01_adj_facade (alg : Alg) (halg : alg ≠ .env) (p : Problem K) (hsq : 
     | chol => exact h
     | gso => exact h
     | svd => exact h
-  exact adjFull_isLS alg p hsq hdim hrows P hP hsol a h'
+  exact adjFull_isLS alg p hsq hdim hrows P (by rw [Cadj_eq_C p hdim]; exact hP) hsol a h'
+
+/-- the covariance matrix of the specification is the one `Adj` reads block by block -/
+theorem C01_adj_cov (p : Problem K) (hdim : (dimsOf p).sum = p.m) : Cadj p = p.C := Cadj_eq_C p hdim
 
 /-- the lawful square root of DESIGN §3.1 gives `SqrtExactP` for every problem -/
 theorem C01_adj_sqrt_of_lawful [LawfulSqrt K] (p : Problem K) : SqrtExactP p := SqrtExactP.of_lawful p
@@ -51,7 +57,7 @@ theorem C01_adj_sqrt_of_lawful [LawfulSqrt K] (p : Problem K) : SqrtExactP p := 
 /-- end to end for `Adj` + cholesky, regular case: no hypothesis on the solver is left -/
 theorem C01_adj_cholesky_regular (p : Problem K) (hsq : SqrtExactP p)
     (hdim : (dimsOf p).sum = p.m) (hrows : RowsOK p)
-    (P : Matrix (Fin p.m) (Fin p.m) K) (hP : Cadj p * P = 1)
+    (P : Matrix (Fin p.m) (Fin p.m) K) (hP : p.C * P = 1)
     (a : Answer K) (h : adjSolve .chol p = .ok a) (hd : a.defect = 0) :
     IsLSSolution p.A p.b P p.S (toVec p.n a.x) (toVec p.m a.r) a.rtr := by
   have h' : adjFull .chol p = .ok a := h
@@ -86,6 +92,22 @@ theorem C01_adj_cholesky_regular (p : Problem K) (hsq : SqrtExactP p)
         subst this
         exact cholSolve_regular_isLS _ s hs hds
 
+/-- end to end for `Adj` + cholesky, any defect: the hypotheses of `C01_cholesky_singular` are asked
+    of the homogenised problem the solver is actually given -/
+theorem C01_adj_cholesky (p : Problem K) (hsq : SqrtExactP p)
+    (hdim : (dimsOf p).sum = p.m) (hrows : RowsOK p)
+    (P : Matrix (Fin p.m) (Fin p.m) K) (hP : p.C * P = 1)
+    (hchol : ∀ Ad bd, homogenise p = .ok (Ad, bd) →
+      Chol.UnambiguousF (cholFact (dotProblem p Ad bd (regOf p.reg))) ∧
+      Chol.GsSqrtExact (dotProblem p Ad bd (regOf p.reg)) ∧
+      ∀ S, Chol.regList p.n (regOf p.reg) = some S → S.Nodup)
+    (a : Answer K) (h : adjSolve .chol p = .ok a) :
+    IsLSSolution p.A p.b P p.S (toVec p.n a.x) (toVec p.m a.r) a.rtr := by
+  refine C01_adj_facade .chol (by decide) p hsq hdim hrows P hP ?_ a h
+  intro Ad bd s hh hs
+  obtain ⟨h1, h2, h3⟩ := hchol Ad bd hh
+  exact cholSolve_isLS _ h1 h2 h3 s hs
+
 /-- sparse branch (envelope): `Adj` reports the solver's own `x`, `r`, `rtr` of the original problem -/
 theorem C01_adj_sparse (p : Problem K) (P : Matrix (Fin p.m) (Fin p.m) K)
     (hsol : ∀ s, solverOf .env { p with reg := regOf p.reg } = .ok s →
@@ -113,10 +135,11 @@ theorem C01_adj_sparse (p : Problem K) (P : Matrix (Fin p.m) (Fin p.m) K)
     `C01_adj_cholesky_regular`, and the model evaluates to `x = (145/161, 241/161)`,
     `rtr = 4/161` (kernel evaluation) -/
 example : SqrtExactP Ex.pCorr ∧ (dimsOf Ex.pCorr).sum = Ex.pCorr.m ∧ RowsOK Ex.pCorr
-    ∧ Cadj Ex.pCorr * Ex.PCorr = 1
+    ∧ Ex.pCorr.C * Ex.PCorr = 1
     ∧ ∃ a, adjSolve .chol Ex.pCorr = .ok a ∧ a.defect = 0 ∧ a.x = #[145/161, 241/161]
         ∧ a.r = #[-16/161, 64/161, -1/161] ∧ a.rtr = 4/161 := by
-  refine ⟨Ex.pCorr_sqrt, by decide, Ex.pCorr_rows, Ex.pCorr_weight, ?_⟩
+  refine ⟨Ex.pCorr_sqrt, by decide, Ex.pCorr_rows,
+    by rw [← Cadj_eq_C Ex.pCorr (by decide)]; exact Ex.pCorr_weight, ?_⟩
   · have h : (adjSolve .chol Ex.pCorr).toOption.map (fun a => (a.defect, a.x, a.r, a.rtr))
         = some (0, #[145/161, 241/161], #[-16/161, 64/161, -1/161], 4/161) := by decide +kernel
     obtain ⟨a, h1, h2⟩ := Ex.ok_of_toOption h
